@@ -45,6 +45,7 @@ type Engine struct {
 	footprints    map[string][]string    // opaque spec function -> heap names its body reads
 	fpBusy        map[string]bool
 	immutable     map[string]bool // heap names of fields never written after construction (checked syntactically)
+	guards        map[string]string // field heap name -> name of the mutex field of the same struct that guards it
 	trustedList   []string
 	contractFiles []string
 
@@ -75,7 +76,7 @@ var loadPatterns = []string{
 func NewEngine(repo string) (*Engine, error) {
 	e := &Engine{repo: repo, u: NewUniverse(), contracts: map[string]*Contract{}, loopContracts: map[string]*Contract{},
 		specFuns: map[string]*Contract{}, ghostVars: map[string]Sort{}, specSorts: map[string]Sort{}, specAccessors: map[string]accInfo{},
-		chanInvs: map[string]*Contract{}, callbacks: map[string]*Contract{}, callsites: map[string][]*Contract{}, impls: map[string]*Contract{}, footprints: map[string][]string{}, fpBusy: map[string]bool{}, immutable: map[string]bool{}, heapSortHint: map[string]Sort{},
+		chanInvs: map[string]*Contract{}, callbacks: map[string]*Contract{}, callsites: map[string][]*Contract{}, impls: map[string]*Contract{}, footprints: map[string][]string{}, fpBusy: map[string]bool{}, immutable: map[string]bool{}, guards: map[string]string{}, heapSortHint: map[string]Sort{},
 		modsMemo: map[*ssa.Function]map[string]bool{}, modsBusy: map[*ssa.Function]bool{}, globals: map[*ssa.Global]int{},
 		funcs: map[*ssa.Function]int{}, ifaceTypes: map[string]types.Type{}, cardSorts: map[Sort]bool{}, ufs: map[string]string{},
 		allFns: map[string]*ssa.Function{}, spkgs: map[string]*ssa.Package{}}
@@ -259,6 +260,35 @@ func (e *Engine) LoadContracts(specDir string) error {
 				callee = c.Name
 			}
 			e.callsites[caller+"|"+callee] = append(e.callsites[caller+"|"+callee], c)
+		case "guarded":
+			// guarded T.f1, f2 by mtx
+			j := strings.Index(c.Name, " by ")
+			i := strings.Index(c.Name, ".")
+			if i < 0 || j < 0 {
+				return fmt.Errorf("%s:%d: guarded needs T.field by mutexfield", c.File, c.Line)
+			}
+			t := e.lookupTypeIn(strings.TrimSpace(c.Name[:i]), c.Pkg)
+			if t == nil {
+				return fmt.Errorf("%s:%d: guarded: unknown type %s", c.File, c.Line, c.Name[:i])
+			}
+			_, st := derefStruct(t)
+			if st == nil {
+				return fmt.Errorf("%s:%d: guarded: %s is not a struct", c.File, c.Line, c.Name[:i])
+			}
+			mtx := strings.TrimSpace(c.Name[j+4:])
+			for _, fn := range strings.Split(c.Name[i+1:j], ",") {
+				fn = strings.TrimSpace(fn)
+				ok := false
+				for k := 0; k < st.NumFields(); k++ {
+					if st.Field(k).Name() == fn {
+						ok = true
+					}
+				}
+				if !ok {
+					return fmt.Errorf("%s:%d: guarded: no field %s", c.File, c.Line, fn)
+				}
+				e.guards["F_"+TypeKey(t)+"_"+sanitize(fn)] = mtx
+			}
 		case "immutable":
 			// immutable T.f1, f2, ...
 			i := strings.Index(c.Name, ".")
